@@ -214,6 +214,14 @@ def shapes(tier):
         add("tag-%s-neg" % attr, A(**{attr: {"-ta"}}))
     add("tag-two", A(areas={"ta", "tb"}))
     add("tag-pos-neg", A(areas={"ta", "-tb"}, contexts={"-tc"}))
+    # a negated tag of one kind next to a positive tag of another kind, in both orders of kinds (the converter walks the
+    # kinds in a fixed order: whatever one tag sets up must not leak into the next)
+    kinds = ("areas", "contexts", "people", "projects")
+    for i, ka in enumerate(kinds):
+        for kb in kinds[i + 1:]:
+            add("tag-neg-%s-pos-%s" % (ka, kb), A(**{ka: {"-ta"}, kb: {"tb"}}))
+            add("tag-pos-%s-neg-%s" % (ka, kb), A(**{ka: {"ta"}, kb: {"-tb"}}))
+    add("tag-neg-pos-same-kind-3", A(areas={"-ta", "tb", "tc"}))
     d1, d2 = dt.date(2024, 4, 8), dt.date(2024, 5, 9)
     add("create-day", A(create_date_ranges={DateRange(d1)}))
     add("create-range", A(create_date_ranges={DateRange(d1, d2)}))
